@@ -1,6 +1,6 @@
 """C01: async result = sequential result (values, shapes, conventions, flush orders)."""
 from vlib.spec import Cond, I, B
-from harness import core, fam
+from harness import core, fam, lemmas
 
 P = {"c01"}
 T_QUICK = [0, 1, 2, 3, 4, 5, 6, 7, 8, 9, 10, 11, 12, 13, 15, 16, 17, 18]
@@ -25,6 +25,7 @@ def conds(tier):
                                budget=200 if q else 900, slim=q))
     out.append(core.cancel_cond("cancel", P))
     out.append(core.dagsync_cond("dagsync", P))
+    out.append(lemmas.struct_cond())
     if not q:
         out.append(Cond("tree4", core.mk_tree(P, 4, 3, 3), core.tree_params(4, 3, 3), pin=4, budget=900,
                         family="F-TREE(4,3,3)", encodes=core.ENC_SCHED))
